@@ -335,6 +335,17 @@ def run(ctx, rep):
                         if math.isfinite(m_) and math.isfinite(p_) and abs(m_ - p_) <= 1e-9 * max(abs(m_), abs(p_)):
                             rep.count("ulp_excused")
                             continue
+                        if node in (G.POW, G.SPOW) and pv[case["stack"][i][2]] == 0.5:
+                            # numpy evaluates x ** 0.5 as sqrt(x): sqrt(-inf) = nan and sqrt(-0.0) = -0.0 where C's pow (the model)
+                            # gives +inf and +0.0; the real-valued expression is undefined / zero there, so neither is a wrong value
+                            base = pv[case["stack"][i][1]]
+                            base = abs(base) if node == G.SPOW else base
+                            alt = math.sqrt(base) if base >= 0 else float("nan")
+                            if base == 0:
+                                alt = base
+                            if same_float(alt, p_, K_ULPS) or (math.isnan(alt) and math.isnan(p_)):
+                                rep.count("numpy_sqrt_fast_path_excused")
+                                continue
                         rep.disagree(f"row {i} ({G.NAMES.get(node, node)}): model {m_!r} vs code {p_!r} from the code's own operands",
                                      {"line": line, "data_row": r, **case})
                         break
